@@ -207,7 +207,7 @@ CLAIMS.update({
              "Memory-model caveat as C02. A stale relaxed get_sample_count on non-multi-copy-atomic hardware cannot be exhibited by the model.",
         ref="DESIGN.md section 4 C03 and 13"),
     "C10": dict(
-        text="Theorems in coq/Props/C10.v (33 statements, closed under the global context), for all interleavings and any number of threads: the vector "
+        text="Theorems in coq/Props/C10.v (36 statements, closed under the global context), for all interleavings and any number of threads: the vector "
              "model is linearizable to a sequential map from label values to (child id, value) with linearisation step = lookup hit / "
              "insert / remove / clear / read-lock acquisition of collect (key set) / per-child load / fetch_add through the handle, each "
              "inside its call window, real-time order respected (c10_lin, c10_real_time); lock word consistent and map accessed only under "
@@ -325,7 +325,8 @@ EXTRA = {
            "for scenarios without decodable increments (c10_relaxed_spec_of_validated_undecodable). c10_relaxed_spec_of_validated_partial3 adds the "
            "'shown' and 'recreated-is-fresh' conjuncts (from c10_child_id_one_key / c10_child_id_never_returns: a child id belongs to one key for "
            "ever), i.e. EVERYTHING in the relaxed spec except the linearisation search (c10_relaxed_spec_of_validated_is_search); that the search "
-           "never answers NotFound on a validated trace is not proved and is evaluated on every run.",
+           "never answers NotFound on a validated trace is proved for scenarios without collect calls (c10_relaxed_spec_of_validated_nocollect: the FULL "
+           "relaxed spec there; the ghost log in time order is a linearisation of the spec's action system) and otherwise evaluated on every run.",
     "C02": " c02_spec_of_validated: for ALL traces, accepted by the validator and inside the executable domain (values +-2^k with distinct exponents "
            "< 53, sorted bounds) implies the executable spec written from the property text is true - the oracle cannot raise an alarm on a trace the "
            "model accepts (subset sums of such values decode uniquely: c02_decode_unique).",
